@@ -555,7 +555,7 @@ class SpecGen:
         if fkind == "enum":
             names = [vn for vn, _ in enum.values if vn != "Default"]
             rng.shuffle(names)
-            keys = names[: rng.choice([1, 2, 3])]
+            keys = names[: rng.choice([1, 2, 3, len(names)])]     # sometimes a case for every declared value
             if rng.random() < 0.3:
                 ords = {o for _, o in enum.values}
                 cand = [o for o in (0, 1, 7, 100, 250) if o not in ords]
